@@ -37,6 +37,15 @@ macro_rules! int_type {
     ($fname:ident, $T:ty, $name:literal, $whole:path, $method:ident, signed = $signed:expr) => {
         fn $fname(rep: &mut Report, inputs: &[String], suffixes: &[&str]) {
             let mut c = Ctx { rep, ty: $name };
+            // the parser argument of parse_with! is an expression: it is evaluated exactly once
+            {
+                let mut evals = 0u32;
+                let r = catch(|| konst::parse_with!({ evals += 1; if evals == 1 { Parser::new("12x") } else { Parser::new("7") } }, $T).map(|(v, p)| (v.to_string(), p.remainder().to_string())).map_err(|_| ()));
+                c.rep.transitions += 1;
+                if r != Ok(Ok(("12".to_string(), "x".to_string()))) || evals != 1 {
+                    c.fail("parse_with!(side-effecting parser expression)", "12x", "Ok((12, \"x\")), 1 evaluation".into(), format!("{r:?}, {evals} evaluations"));
+                }
+            }
             for s in inputs {
                 c.rep.states += 1;
                 // ---- whole string
@@ -187,6 +196,9 @@ pub fn run(tier: Tier, rep: &mut Report) -> (String, String) {
             }
         }
     }
+    let edge_suffixes: Vec<String> = lead_byte_edge_chars().into_iter().flat_map(|c| [c.to_string(), format!("{c}1")]).collect();
+    let edge_refs: Vec<&str> = edge_suffixes.iter().map(|s| s.as_str()).collect();
+    let edge_inputs: Vec<String> = ["", "0", "1", "-1", "12", "-", "127", "128", "-128", "255", "256"].map(String::from).to_vec();
     let jobs: Vec<usize> = (0..INTS.len()).collect();
     rep.merge(par_each(&jobs, th, |&i, r| {
         let (name, f, signed, bits) = INTS[i];
@@ -200,6 +212,8 @@ pub fn run(tier: Tier, rep: &mut Report) -> (String, String) {
         }
         let nb = neighbourhood(signed, bits);
         f(r, &nb, suffixes);
+        // the unconsumed rest starts with the first and the last char of every UTF-8 lead-byte class
+        f(r, &edge_inputs, &edge_refs);
         r.sample(|| format!("{name}: {} small strings x {} suffixes, {} values, {} MIN/MAX neighbourhood strings", small.len(), suffixes.len(), vals16.len(), nb.len()));
     }));
     // bool
@@ -227,10 +241,11 @@ pub fn run(tier: Tier, rep: &mut Report) -> (String, String) {
     words.sort();
     words.dedup();
     t_bool(rep, &words, suffixes);
+    t_bool(rep, &["true".to_string(), "false".to_string(), "tru".to_string()], &edge_refs);
     rep.traces = rep.transitions;
     (
         "state = one input string (x suffix for prefix parsing); transition = primitive::parse_T (whole string), Parser::parse_T and parse_with!(parser, T) (prefix); oracle: whole string = str::parse::<T> unless the string starts with '+'; prefix = optional '-' (signed only) + longest ASCII-digit run, value by checked 128-bit accumulation, failure (an Err and no parser) if no digit or out of range, otherwise the unconsumed rest by address (offset bookkeeping belongs to C13); non-trivial = a string containing a digit that must be rejected".into(),
-        format!("12 integer types + bool; all strings of <= {n} atoms over [0,1,2,9,-,+,a,' ',٣] and of <= {} atoms with '/' and ':' (the ASCII neighbours of the digits) added, every ASCII char and 9 non-ASCII digits/extremes in every position of 10 short digit templates ({} strings in all) x suffixes {suffixes:?}; every value from i16::MIN-3 to u16::MAX+3 (canonical; decorated with leading zeros, trailing x, leading + for |v|<300 and every 97th); per type MAX-2..MAX+3 with signs, 0/1/2/40 leading zeros, one extra digit; bool words within edit distance 1 of true/false ({})", tier.pick(4, 5, 2), small.len(), words.len()),
+        format!("12 integer types + bool; all strings of <= {n} atoms over [0,1,2,9,-,+,a,' ',٣] and of <= {} atoms with '/' and ':' (the ASCII neighbours of the digits) added, every ASCII char and 9 non-ASCII digits/extremes in every position of 10 short digit templates ({} strings in all) x suffixes {suffixes:?}; every value from i16::MIN-3 to u16::MAX+3 (canonical; decorated with leading zeros, trailing x, leading + for |v|<300 and every 97th); per type MAX-2..MAX+3 with signs, 0/1/2/40 leading zeros, one extra digit; bool words within edit distance 1 of true/false ({}); 11 short numbers and true/false followed by the first and last char of every UTF-8 lead-byte class; parse_with! with a side-effecting parser expression (evaluated once)", tier.pick(4, 5, 2), small.len(), words.len()),
     )
 }
 
